@@ -8,13 +8,6 @@ their UTF-8 bytes.  (Lean's `String.<` compares code points — the same on ASCI
 -/
 namespace StepModel.AlphaOrder
 
-/-- `strcmp( a, b ) < 0` on NUL-free byte strings: the first differing byte decides (compared as unsigned char), a proper prefix
-    is smaller -/
-def strcmpLt : List UInt8 → List UInt8 → Bool
-  | [], [] => false
-  | [], _ :: _ => true
-  | _ :: _, [] => false
-  | a :: r, b :: s => if a < b then true else if b < a then false else strcmpLt r s
 
 theorem strcmpLt_irrefl : ∀ a, strcmpLt a a = false
   | [] => rfl
@@ -72,8 +65,6 @@ theorem strcmpLt_total : ∀ a b, a ≠ b → strcmpLt a b = true ∨ strcmpLt b
 /-- the comparison the tools use — `strcmp` over the bytes of the identifiers — IS a strict total order -/
 theorem strcmpLt_strictTotal : StrictTotal strcmpLt := ⟨strcmpLt_irrefl, strcmpLt_trans, strcmpLt_total⟩
 
-/-- … lifted to identifiers (`String`s) through their UTF-8 bytes, which is what `strcmp` sees -/
-def nameStrcmpLt (a b : String) : Bool := strcmpLt a.toByteArray.data.toList b.toByteArray.data.toList
 
 theorem nameStrcmpLt_strictTotal : StrictTotal nameStrcmpLt := by
   refine ⟨fun a => strcmpLt_irrefl _, fun a b c => strcmpLt_trans _ _ _, ?_⟩
